@@ -1,13 +1,4 @@
 // ---- part ssudp: codec/shadowsocks/udp.rs (dispatch, legacy and 2022 datagrams, sessions), client/shadowsocks.rs udp module ----
-/// udp.rs 2022 datagram ENCODE paths: unsafe code (advance_mut over uninitialised memory, static cipher cache): NOT verified, no contract.
-impl<const N: usize> udp__AEADCipherCodec<N> {
-    #[verifier::external_body]
-    fn encode_client_packet_aead_2022(&self, context: &udp__Context<N>, session: &udp__Session<N>, address: &Address, item: BytesMut, dst: &mut BytesMut) -> (r: anyhow::Result<()>)
-    { unimplemented!() }
-    #[verifier::external_body]
-    fn encode_server_packet_aead_2022(&self, context: &udp__Context<N>, session: &udp__Session<N>, address: &Address, item: BytesMut, dst: &mut BytesMut) -> (r: anyhow::Result<()>)
-    { unimplemented!() }
-}
 // ---- SIP022 3.2 (UDP): packet layouts as spec functions, written from the specification ----
 //   AES-GCM variants:  AES-ECB(psk, session id(8) | packet id(8)) | [identity header(16), client->server with users] | AEAD(session sub-key, nonce = (sid|pid)[4..16], body)
 //   XChaCha variants:  nonce(24) | AEAD(psk, nonce, session id(8) | packet id(8) | body)
@@ -172,6 +163,162 @@ spec fn udp22_err<const N: usize>(kind: CipherKind, ctx: udp__Context<N>, s: Seq
         Mode::Server => !(clock_ok() && udp22_server_parse(kind, ctx, s) is Some),
     }
 }
+// ---- SIP022 3.2 (UDP), sender side: what a packet looks like on the wire ----
+spec fn udp22_body_c2s(ts: u64, pad: Seq<u8>, addr: AddrV, payload: Seq<u8>) -> Seq<u8> {
+    seq![0u8] + be_bytes(ts as nat, 8) + be_bytes(pad.len(), 2) + pad + enc5(addr) + payload
+}
+spec fn udp22_body_s2c(ts: u64, csid: u64, pad: Seq<u8>, addr: AddrV, payload: Seq<u8>) -> Seq<u8> {
+    seq![1u8] + be_bytes(ts as nat, 8) + be_bytes(csid as nat, 8) + be_bytes(pad.len(), 2) + pad + enc5(addr) + payload
+}
+/// hk: the key of the separate header (AES variants); eih: the identity headers; bkey: the key the body is sealed under (before the session sub-key
+/// derivation of the AES variants); nonce: the 24 random bytes of the XChaCha variants
+spec fn udp22_wire(kind: CipherKind, hk: Seq<u8>, eih: Seq<u8>, bkey: Seq<u8>, sid: u64, pid: u64, nonce: Seq<u8>, body: Seq<u8>) -> Seq<u8> {
+    let hdr = be_bytes(sid as nat, 8) + be_bytes(pid as nat, 8);
+    if kind.has_eih() {
+        aes_ecb_enc(aes_bits(kind), hk, hdr) + eih + aead_seal(alg_of(kind), udp22_session_key(kind, bkey, sid), hdr.subrange(4, 16), Seq::empty(), body)
+    } else {
+        nonce + aead_seal(if kind is Aead2022Blake3ChaCha8Poly1305 { 4 } else { 5 }, bkey.take(32), nonce, Seq::empty(), hdr + body)
+    }
+}
+/// the key a server reply is sealed under: the key of the user the session was authenticated as, else the server key
+spec fn session_key_of<const N: usize>(ctx: udp__Context<N>, session: udp__Session<N>) -> Seq<u8> { match session.user { Some(u) => u.key@, None => ctx.key@ } }
+spec fn iks_seq<const N: usize>(iks: Seq<[u8; N]>) -> Seq<Seq<u8>> { iks.map_values(|k: [u8; N]| k@) }
+/// what the client puts on the wire for one datagram: exists a nonce / padding such that ..
+spec fn udp22_c2s_is<const N: usize>(kind: CipherKind, ctx: udp__Context<N>, sid: u64, pid: u64, addr: AddrV, payload: Seq<u8>, nonce: Seq<u8>, pad: Seq<u8>, s: Seq<u8>) -> bool {
+    let n = ctx.identity_keys@.len() as int;
+    let hdr = be_bytes(sid as nat, 8) + be_bytes(pid as nat, 8);
+    &&& nonce.len() == nonce_len22(kind) && pad.len() <= 900
+    &&& s == udp22_wire(kind, if n == 0 { ctx.key@ } else { ctx.identity_keys@[0]@ },
+            if kind.has_eih() { udp_eih_prefix(kind, ctx.key@, iks_seq(ctx.identity_keys@), hdr, n) } else { Seq::empty() },
+            ctx.key@, sid, pid, nonce, udp22_body_c2s(wall_clock(), pad, addr, payload))
+}
+spec fn udp22_s2c_is<const N: usize>(kind: CipherKind, ctx: udp__Context<N>, ukey: Seq<u8>, ssid: u64, pid: u64, csid: u64, addr: AddrV, payload: Seq<u8>, nonce: Seq<u8>, pad: Seq<u8>, s: Seq<u8>) -> bool {
+    &&& nonce.len() == nonce_len22(kind) && pad.len() <= 900
+    &&& s == udp22_wire(kind, ukey, Seq::empty(), if kind.has_eih() { ukey } else { ctx.key@ }, ssid, pid, nonce, udp22_body_s2c(wall_clock(), csid, pad, addr, payload))
+}
+/// cutting a buffer `a | b | c | 16 spare bytes` the way the encoders do
+proof fn lemma_udp_parts(d: Seq<u8>, a: Seq<u8>, b: Seq<u8>, c: Seq<u8>)
+    requires d.len() == a.len() + b.len() + c.len() + 16, d.take((a.len() + b.len() + c.len()) as int) == a + b + c,
+    ensures d.take(a.len() as int) == a, d.skip(a.len() as int).take(b.len() as int) == b, d.skip(a.len() as int).len() == b.len() + c.len() + 16,
+        d.skip(a.len() as int).skip(b.len() as int).len() == c.len() + 16,
+        d.skip(a.len() as int).skip(b.len() as int).take(c.len() as int) == c,
+        d.skip(a.len() as int).take((b.len() + c.len()) as int) == b + c,
+{
+    let p = a + b + c;
+    assert(d.take(a.len() as int) =~= p.take(a.len() as int));
+    assert(p.take(a.len() as int) =~= a);
+    assert(d.skip(a.len() as int).take(b.len() as int) =~= p.skip(a.len() as int).take(b.len() as int));
+    assert(p.skip(a.len() as int).take(b.len() as int) =~= b);
+    assert(d.skip(a.len() as int).skip(b.len() as int).take(c.len() as int) =~= p.skip(a.len() as int).skip(b.len() as int).take(c.len() as int));
+    assert(p.skip(a.len() as int).skip(b.len() as int).take(c.len() as int) =~= c);
+    assert(d.skip(a.len() as int).take((b.len() + c.len()) as int) =~= p.skip(a.len() as int));
+    assert(p.skip(a.len() as int) =~= b + c);
+}
+proof fn lemma_udp_eih_prefix_len(kind: CipherKind, key: Seq<u8>, iks: Seq<Seq<u8>>, sidpid: Seq<u8>, n: int)
+    requires sidpid.len() == 16, 0 <= n
+    ensures udp_eih_prefix(kind, key, iks, sidpid, n).len() == 16 * n
+    decreases n
+{
+    if n > 0 {
+        lemma_udp_eih_prefix_len(kind, key, iks, sidpid, n - 1);
+        let nx = if n == iks.len() { key } else { iks[n] };
+        axiom_ecb_inverse(aes_bits(kind), iks[n - 1], xor_seq(blake3_hash(nx).take(16), sidpid));
+        lemma_xor_len(blake3_hash(nx).take(16), sidpid);
+        axiom_blake3_hash_len(nx);
+    }
+}
+// ---- C02 / C03: what the encoders put on the wire is what the decoders' specification accepts, with the same ids, address and payload ----
+/// reading the fixed fields of a client->server body back
+proof fn lemma_udp22_body_c2s_parse(pad: Seq<u8>, addr: AddrV, payload: Seq<u8>)
+    requires pad.len() <= 900, addr_valid(addr),
+    ensures udp22_body(false, udp22_body_c2s(wall_clock(), pad, addr, payload)) == Some(Udp22Body { csid: 0, addr, payload }),
+{
+    let ts = wall_clock();
+    let b = udp22_body_c2s(ts, pad, addr, payload);
+    lemma_be_bytes_len(ts as nat, 8); lemma_be_bytes_len(pad.len(), 2);
+    assert(b[0] == 0u8);
+    assert(b.subrange(1, 9) =~= be_bytes(ts as nat, 8));
+    assert(b.subrange(9, 11) =~= be_bytes(pad.len(), 2));
+    lemma_pow256_vals();
+    lemma_be_roundtrip(ts as nat, 8); lemma_be_roundtrip(pad.len(), 2);
+    assert(b.skip((11 + pad.len()) as int) =~= enc5(addr) + payload);
+    lemma_addr5_roundtrip(addr, payload);
+    assert((enc5(addr) + payload).skip(enc5(addr).len() as int) =~= payload);
+    assert(b.skip((11 + pad.len() + enc5(addr).len()) as int) =~= payload);
+}
+proof fn lemma_udp22_body_s2c_parse(csid: u64, pad: Seq<u8>, addr: AddrV, payload: Seq<u8>)
+    requires pad.len() <= 900, addr_valid(addr),
+    ensures udp22_body(true, udp22_body_s2c(wall_clock(), csid, pad, addr, payload)) == Some(Udp22Body { csid, addr, payload }),
+{
+    let ts = wall_clock();
+    let b = udp22_body_s2c(ts, csid, pad, addr, payload);
+    lemma_be_bytes_len(ts as nat, 8); lemma_be_bytes_len(csid as nat, 8); lemma_be_bytes_len(pad.len(), 2);
+    assert(b[0] == 1u8);
+    assert(b.subrange(1, 9) =~= be_bytes(ts as nat, 8));
+    assert(b.subrange(9, 17) =~= be_bytes(csid as nat, 8));
+    assert(b.subrange(17, 19) =~= be_bytes(pad.len(), 2));
+    lemma_pow256_vals();
+    lemma_be_roundtrip(ts as nat, 8); lemma_be_roundtrip(csid as nat, 8); lemma_be_roundtrip(pad.len(), 2);
+    assert(b.skip((19 + pad.len()) as int) =~= enc5(addr) + payload);
+    lemma_addr5_roundtrip(addr, payload);
+    assert((enc5(addr) + payload).skip(enc5(addr).len() as int) =~= payload);
+    assert(b.skip((19 + pad.len() + enc5(addr).len()) as int) =~= payload);
+}
+/// opening a packet laid out by udp22_wire gives back the ids and the body
+proof fn lemma_udp22_wire_open(kind: CipherKind, hk: Seq<u8>, eih: Seq<u8>, bkey: Seq<u8>, sid: u64, pid: u64, nonce: Seq<u8>, body: Seq<u8>)
+    requires kind.is_2022(), nonce.len() == nonce_len22(kind), eih.len() == 0 || (eih.len() == 16 && kind.has_eih()),
+    ensures
+        udp22_open(kind, if kind.has_eih() { hk } else { bkey }, bkey, (16 + eih.len()) as int, udp22_wire(kind, hk, eih, bkey, sid, pid, nonce, body)) == Some((sid, pid, body)),
+        udp22_wire(kind, hk, eih, bkey, sid, pid, nonce, body).len() == nonce_len22(kind) + 32 + eih.len() + body.len(),
+{
+    let hdr = be_bytes(sid as nat, 8) + be_bytes(pid as nat, 8);
+    let s = udp22_wire(kind, hk, eih, bkey, sid, pid, nonce, body);
+    lemma_be_bytes_len(sid as nat, 8); lemma_be_bytes_len(pid as nat, 8);
+    lemma_pow256_vals();
+    lemma_be_roundtrip(sid as nat, 8); lemma_be_roundtrip(pid as nat, 8);
+    assert(hdr.take(8) =~= be_bytes(sid as nat, 8));
+    assert(hdr.subrange(8, 16) =~= be_bytes(pid as nat, 8));
+    if kind.has_eih() {
+        let e = aes_ecb_enc(aes_bits(kind), hk, hdr);
+        axiom_ecb_inverse(aes_bits(kind), hk, hdr);
+        let k = udp22_session_key(kind, bkey, sid);
+        let ct = aead_seal(alg_of(kind), k, hdr.subrange(4, 16), Seq::empty(), body);
+        axiom_seal_len(alg_of(kind), k, hdr.subrange(4, 16), Seq::empty(), body);
+        axiom_open_seal(alg_of(kind), k, hdr.subrange(4, 16), Seq::empty(), body);
+        assert(s.take(16) =~= e);
+        assert(s.skip((16 + eih.len()) as int) =~= ct);
+    } else {
+        let a: int = if kind is Aead2022Blake3ChaCha8Poly1305 { 4 } else { 5 };
+        let ct = aead_seal(a, bkey.take(32), nonce, Seq::empty(), hdr + body);
+        axiom_seal_len(a, bkey.take(32), nonce, Seq::empty(), hdr + body);
+        axiom_open_seal(a, bkey.take(32), nonce, Seq::empty(), hdr + body);
+        assert(s.take(24) =~= nonce);
+        assert(s.skip(24) =~= ct);
+        assert((hdr + body).take(8) =~= be_bytes(sid as nat, 8));
+        assert((hdr + body).subrange(8, 16) =~= be_bytes(pid as nat, 8));
+        assert((hdr + body).skip(16) =~= body);
+    }
+}
+/// client -> server without identity keys: the server's packet specification reads exactly what was sent
+proof fn lemma_udp22_c2s_roundtrip<const N: usize>(kind: CipherKind, ctx: udp__Context<N>, sid: u64, pid: u64, addr: AddrV, payload: Seq<u8>, nonce: Seq<u8>, pad: Seq<u8>, s: Seq<u8>)
+    requires kind.is_2022(), addr_valid(addr), ctx.identity_keys@.len() == 0, udp22_c2s_is(kind, ctx, sid, pid, addr, payload, nonce, pad, s),
+    ensures udp22_parse(kind, ctx.key@, ctx.key@, 0, false, s) == Some(Udp22Pkt { sid, pid, body: Udp22Body { csid: 0, addr, payload } }),
+{
+    let body = udp22_body_c2s(wall_clock(), pad, addr, payload);
+    let hdr = be_bytes(sid as nat, 8) + be_bytes(pid as nat, 8);
+    assert(udp_eih_prefix(kind, ctx.key@, iks_seq(ctx.identity_keys@), hdr, 0) =~= Seq::<u8>::empty());
+    lemma_udp22_wire_open(kind, ctx.key@, Seq::empty(), ctx.key@, sid, pid, nonce, body);
+    lemma_udp22_body_c2s_parse(pad, addr, payload);
+}
+/// server -> client: the client's packet specification reads exactly what was sent (no users: everything under the pre-shared key)
+proof fn lemma_udp22_s2c_roundtrip<const N: usize>(kind: CipherKind, ctx: udp__Context<N>, ssid: u64, pid: u64, csid: u64, addr: AddrV, payload: Seq<u8>, nonce: Seq<u8>, pad: Seq<u8>, s: Seq<u8>)
+    requires kind.is_2022(), addr_valid(addr), udp22_s2c_is(kind, ctx, ctx.key@, ssid, pid, csid, addr, payload, nonce, pad, s),
+    ensures udp22_parse(kind, ctx.key@, ctx.key@, 0, true, s) == Some(Udp22Pkt { sid: ssid, pid, body: Udp22Body { csid, addr, payload } }),
+{
+    let body = udp22_body_s2c(wall_clock(), csid, pad, addr, payload);
+    lemma_udp22_wire_open(kind, ctx.key@, Seq::empty(), ctx.key@, ssid, pid, nonce, body);
+    lemma_udp22_body_s2c_parse(csid, pad, addr, payload);
+}
 impl<const N: usize> udp__Context<'_, N> {
     spec fn has_users(&self) -> bool { self.user_manager matches Some(m) && m.count() > 0 }
 }
@@ -256,7 +403,16 @@ impl<const N: usize> udp__AEADCipherCodec<N> {
 
     fn encode(&self, context: &udp__Context<N>, session: &udp__Session<N>, address: &Address, item: BytesMut, dst: &mut BytesMut) -> (r: anyhow::Result<()>)
         requires self.wf(context), repr(*address),
+            // a 2022 packet is built in place from the start of the buffer (UdpFramed hands the encoder its flushed, empty write buffer)
+            self.kind.is_2022() ==> old(dst)@.len() == 0 && context.identity_keys@.len() <= 0x0fff_ffff,
         ensures
+            //#C02 C03 C12 C14
+            // 2022 datagram, client side: exactly one SIP022 packet for this session id, packet id, address and payload
+            (self.kind.is_2022() && context.stream_type is Client && r is Ok) ==> exists|nonce: Seq<u8>, pad: Seq<u8>| #[trigger] udp22_c2s_is(self.kind, *context, session.client_session_id, session.packet_id, absaddr(*address), item@, nonce, pad, final(dst)@),
+            //#C02 C03 C12 C14 C06
+            // 2022 datagram, server side: sealed under the key of the user the session belongs to
+            (self.kind.is_2022() && context.stream_type is Server && r is Ok) ==> exists|nonce: Seq<u8>, pad: Seq<u8>| #[trigger] udp22_s2c_is(self.kind, *context, session_key_of(*context, *session), session.server_session_id, session.packet_id,
+                session.client_session_id, absaddr(*address), item@, nonce, pad, final(dst)@),
             //#C02 C03 C14
             // legacy datagram: salt || seal(subkey(salt), nonce 0, address || payload): the whole payload or an error
             (!self.kind.is_2022() && r is Ok) ==> ({
@@ -282,6 +438,231 @@ impl<const N: usize> udp__AEADCipherCodec<N> {
                 proof { let n0 = old(dst)@.len() as int; assert((d1 + sealed).subrange(n0, n0 + N) =~= salt@); }
                 encoder.encode_packet(temp, dst).map_err(|e| verif_err())
             }
+        }
+    }
+
+    #[verifier::spinoff_prover]
+    #[verifier::rlimit(120)]
+    fn encode_client_packet_aead_2022(
+        &self,
+        context: &udp__Context<N>,
+        session: &udp__Session<N>,
+        address: &Address,
+        item: BytesMut,
+        dst: &mut BytesMut,
+    ) -> (r: anyhow::Result<()>)
+        requires self.wf(context), self.kind.is_2022(), repr(*address), old(dst)@.len() == 0, context.identity_keys@.len() <= 0x0fff_ffff,
+        ensures
+            //#C02 C03 C12 C14
+            // SIP022 3.2: the datagram on the wire is exactly one packet carrying this session id, this packet id, the type byte 0, the
+            // current time, the address and the whole payload, sealed under the key of this session (whole or an error)
+            r is Ok ==> exists|nonce: Seq<u8>, pad: Seq<u8>| #[trigger] udp22_c2s_is(self.kind, *context, session.client_session_id, session.packet_id, absaddr(*address), item@, nonce, pad, final(dst)@),
+    {
+        let padding_length = a22__next_padding_length(&item);
+        let nonce_size = a22udp__nonce_length(self.kind);
+        let tag_size = self.kind.tag_size();
+        let require_eih = self.kind.support_eih() && !context.identity_keys.is_empty();
+        let eih_len = if require_eih { 16 * context.identity_keys.len() } else { 0 };
+        dst.reserve(nonce_size + 8 + 8 + eih_len + 1 + 8 + 2 + padding_length as usize + address__length(address) + item.remaining() + tag_size);
+        if nonce_size > 0 {
+            unsafe { dst.advance_mut(nonce_size) };
+            let nonce = dst.v_range_mut(0,nonce_size);
+            dice::fill_bytes(nonce);
+        }
+        let ghost nonce_g = dst@;
+        let ghost sid = session.client_session_id;
+        let ghost pid = session.packet_id;
+        let ghost hdr = be_bytes(sid as nat, 8) + be_bytes(pid as nat, 8);
+        proof { lemma_be_bytes_len(sid as nat, 8); lemma_be_bytes_len(pid as nat, 8); assert(nonce_g.len() == nonce_size); }
+        dst.put_u64(session.client_session_id);
+        dst.put_u64(session.packet_id);
+        proof { assert(dst@ =~= nonce_g + hdr); }
+        let ghost iks = iks_seq(context.identity_keys@);
+        let ghost eihb: Seq<u8> = if require_eih { udp_eih_prefix(self.kind, context.key@, iks, hdr, context.identity_keys@.len() as int) } else { Seq::empty() };
+        if require_eih {
+            let mut session_id_packet_id = [0; 16];
+            proof { assert(nonce_size == 0); assert(dst@.skip(0) =~= hdr); }
+            session_id_packet_id.copy_from_slice(&dst[nonce_size..]);
+            a22udp__with_eih(self.kind, context.key, context.identity_keys, &session_id_packet_id, dst)?
+        }
+        proof {
+            assert(dst@ =~= nonce_g + hdr + eihb);
+            if require_eih { lemma_udp_eih_prefix_len(self.kind, context.key@, iks, hdr, context.identity_keys@.len() as int); }
+            assert(eihb.len() == eih_len);
+        }
+        dst.put_u8(Mode::Client.to_u8());
+        dst.put_u64(a22__now()?);
+        dst.put_u16(padding_length);
+        let ghost d_before_pad = dst@;
+        dst.extend_from_slice(&dice::roll_bytes(padding_length as usize));
+        let ghost pad = dst@.skip(d_before_pad.len() as int);
+        address__encode(address, dst);
+        dst.extend_from_slice(&item);
+        let ghost body = udp22_body_c2s(wall_clock(), pad, absaddr(*address), item@);
+        proof {
+            assert(pad.len() == padding_length);
+            assert(seq![0u8] =~= Seq::<u8>::empty().push(0u8));
+            assert(dst@ =~= nonce_g + hdr + eihb + body);
+        }
+        let ghost plain = dst@;
+        unsafe {
+            dst.advance_mut(tag_size);
+        }
+        match self.kind {
+            CipherKind::Aead2022Blake3Aes128Gcm | CipherKind::Aead2022Blake3Aes256Gcm => {
+                proof {
+                    assert(nonce_g.len() == 0);
+                    assert(plain =~= hdr + eihb + body);
+                    lemma_udp_parts(dst@, hdr, eihb, body);
+                }
+                let (header, mut text) = dst.split_at_mut(16);
+                let ghost text0 = text@;
+                let mut nonce = [0; 12];
+                nonce.copy_from_slice(&header[4..16]);
+                let key = if context.identity_keys.is_empty() { context.key } else { &context.identity_keys[0] };
+                a22udp__aes_encrypt_in_place(self.kind, key, header)?;
+                if eih_len > 0 {
+                    text = verif_reslice_mut(text,eih_len);
+                }
+                proof { assert(text@ == text0.skip(eih_len as int)); assert(text@.len() == body.len() + 16); }
+                let cipher = unsafe { udp__get_cipher(self.kind, context.key, session.client_session_id) };
+                cipher.encrypt_in_place_detached(&nonce, &[], text).map_err(|e| verif_err())?;
+                proof {
+                    let hk = if context.identity_keys@.len() == 0 { context.key@ } else { context.identity_keys@[0]@ };
+                    let sealed = aead_seal(alg_of(self.kind), udp22_session_key(self.kind, context.key@, sid), hdr.subrange(4, 16), Seq::empty(), body);
+                    assert(nonce@ =~= hdr.subrange(4, 16));
+                    assert(text0.take(eih_len as int) == eihb);
+                    assert(dst@.take(16) == aes_ecb_enc(aes_bits(self.kind), hk, hdr));
+                    assert(dst@.skip(16) =~= eihb + sealed);
+                    assert(dst@ =~= aes_ecb_enc(aes_bits(self.kind), hk, hdr) + eihb + sealed);
+                    assert(udp22_c2s_is(self.kind, *context, sid, pid, absaddr(*address), item@, nonce_g, pad, dst@));
+                }
+                Ok(())
+            }
+            CipherKind::Aead2022Blake3ChaCha8Poly1305 | CipherKind::Aead2022Blake3ChaCha20Poly1305 => {
+                proof {
+                    assert(nonce_g.len() == 24); assert(eihb.len() == 0);
+                    assert(plain =~= nonce_g + Seq::<u8>::empty() + (hdr + body));
+                    lemma_udp_parts(dst@, nonce_g, Seq::<u8>::empty(), hdr + body);
+                    assert(dst@.skip(24).skip(0) =~= dst@.skip(24));
+                }
+                let (nonce, plaintext) = dst.split_at_mut(nonce_size);
+                let cipher = unsafe { udp__get_cipher(self.kind, context.key, session.client_session_id) };
+                cipher.encrypt_in_place_detached(nonce, &[], plaintext).map_err(|e| verif_err())?;
+                proof {
+                    assert(udp22_c2s_is(self.kind, *context, sid, pid, absaddr(*address), item@, nonce_g, pad, dst@));
+                }
+                Ok(())
+            }
+            _ => return Err(verif_err()),
+        }
+    }
+
+    #[verifier::spinoff_prover]
+    #[verifier::rlimit(120)]
+    fn encode_server_packet_aead_2022(
+        &self,
+        context: &udp__Context<N>,
+        session: &udp__Session<N>,
+        address: &Address,
+        item: BytesMut,
+        dst: &mut BytesMut,
+    ) -> (r: anyhow::Result<()>)
+        requires self.wf(context), self.kind.is_2022(), repr(*address), old(dst)@.len() == 0,
+        ensures
+            //#C02 C03 C12 C14 C06
+            // SIP022 3.2: one packet carrying the server session id, this packet id, the type byte 1, the current time, the client session id,
+            // the address and the whole payload, sealed under the key of the user the session belongs to (whole or an error)
+            r is Ok ==> exists|nonce: Seq<u8>, pad: Seq<u8>| #[trigger] udp22_s2c_is(self.kind, *context, session_key_of(*context, *session), session.server_session_id, session.packet_id,
+                session.client_session_id, absaddr(*address), item@, nonce, pad, final(dst)@),
+    {
+        let padding_length = a22__next_padding_length(&item);
+        let nonce_length = a22udp__nonce_length(self.kind);
+        let tag_size = self.kind.tag_size();
+        dst.reserve(nonce_length + 8 + 8 + 1 + 8 + 8 + 2 + padding_length as usize + address__length(address) + item.remaining() + tag_size);
+        if nonce_length > 0 {
+            unsafe {
+                dst.advance_mut(nonce_length);
+            }
+            let nonce = dst.v_range_mut(0,nonce_length);
+            dice::fill_bytes(nonce);
+        }
+        let ghost nonce_g = dst@;
+        let ghost sid = session.server_session_id;
+        let ghost pid = session.packet_id;
+        let ghost hdr = be_bytes(sid as nat, 8) + be_bytes(pid as nat, 8);
+        proof { lemma_be_bytes_len(sid as nat, 8); lemma_be_bytes_len(pid as nat, 8); assert(nonce_g.len() == nonce_length); }
+        dst.put_u64(session.server_session_id);
+        dst.put_u64(session.packet_id);
+        dst.put_u8(Mode::Server.to_u8());
+        dst.put_u64(a22__now()?);
+        dst.put_u64(session.client_session_id);
+        dst.put_u16(padding_length);
+        let ghost d_before_pad = dst@;
+        if padding_length > 0 {
+            unsafe {
+                dst.advance_mut(padding_length as usize);
+            }
+        }
+        let ghost pad = dst@.skip(d_before_pad.len() as int);
+        proof { assert(dst@ =~= d_before_pad + pad); assert(d_before_pad =~= nonce_g + hdr + seq![1u8] + be_bytes(wall_clock() as nat, 8) + be_bytes(session.client_session_id as nat, 8) + be_bytes(padding_length as nat, 2)) by { assert(seq![1u8] =~= Seq::<u8>::empty().push(1u8)); } }
+        address__encode(address, dst);
+        dst.extend_from_slice(&item);
+        let ghost body = udp22_body_s2c(wall_clock(), session.client_session_id, pad, absaddr(*address), item@);
+        proof {
+            assert(pad.len() == padding_length);
+            assert(seq![1u8] =~= Seq::<u8>::empty().push(1u8));
+            assert(dst@ =~= nonce_g + hdr + body);
+        }
+        let ghost plain = dst@;
+        unsafe { dst.advance_mut(tag_size) };
+        match self.kind {
+            CipherKind::Aead2022Blake3Aes128Gcm | CipherKind::Aead2022Blake3Aes256Gcm => {
+                proof {
+                    assert(nonce_g.len() == 0);
+                    assert(plain =~= hdr + Seq::<u8>::empty() + body);
+                    lemma_udp_parts(dst@, hdr, Seq::<u8>::empty(), body);
+                    assert(dst@.skip(16).skip(0) =~= dst@.skip(16));
+                }
+                let (header, text) = dst.split_at_mut(16);
+                let mut nonce = [0; 12];
+                nonce.copy_from_slice(&header[4..16]);
+                let key = if let Some(user) = &session.user {
+                    /*R2*/
+                    &user.key
+                } else {
+                    context.key
+                };
+                a22udp__aes_encrypt_in_place(self.kind, key, header)?;
+                let cipher = unsafe { udp__get_cipher(self.kind, key, session.server_session_id) };
+                cipher.encrypt_in_place_detached(&nonce, &[], text).map_err(|e| verif_err())?;
+                proof {
+                    let uk = session_key_of(*context, *session);
+                    let sealed = aead_seal(alg_of(self.kind), udp22_session_key(self.kind, uk, sid), hdr.subrange(4, 16), Seq::empty(), body);
+                    assert(nonce@ =~= hdr.subrange(4, 16));
+                    assert(dst@.take(16) == aes_ecb_enc(aes_bits(self.kind), uk, hdr));
+                    assert(dst@.skip(16) =~= sealed);
+                    assert(dst@ =~= aes_ecb_enc(aes_bits(self.kind), uk, hdr) + Seq::<u8>::empty() + sealed);
+                    assert(udp22_s2c_is(self.kind, *context, uk, sid, pid, session.client_session_id, absaddr(*address), item@, nonce_g, pad, dst@));
+                }
+                Ok(())
+            }
+            CipherKind::Aead2022Blake3ChaCha8Poly1305 | CipherKind::Aead2022Blake3ChaCha20Poly1305 => {
+                proof {
+                    assert(nonce_g.len() == 24);
+                    assert(plain =~= nonce_g + Seq::<u8>::empty() + (hdr + body));
+                    lemma_udp_parts(dst@, nonce_g, Seq::<u8>::empty(), hdr + body);
+                    assert(dst@.skip(24).skip(0) =~= dst@.skip(24));
+                }
+                let (nonce, plaintext) = dst.split_at_mut(nonce_length);
+                let cipher = unsafe { udp__get_cipher(self.kind, context.key, session.server_session_id) };
+                cipher.encrypt_in_place_detached(nonce, &[], plaintext).map_err(|e| verif_err())?;
+                proof {
+                    assert(udp22_s2c_is(self.kind, *context, session_key_of(*context, *session), sid, pid, session.client_session_id, absaddr(*address), item@, nonce_g, pad, dst@));
+                }
+                Ok(())
+            }
+            _ => return Err(verif_err()),
         }
     }
 
@@ -572,6 +953,13 @@ impl<'a, const N: usize> udp__SessionCodec<'a, N> {
 
     fn encode(&self, verif_arg2: udp__SessionPacket<N>, dst: &mut BytesMut) -> (r: anyhow::Result<()>)
         requires self.wf(), repr(verif_arg2.1),
+            self.cipher.kind.is_2022() ==> old(dst)@.len() == 0 && self.context.identity_keys@.len() <= 0x0fff_ffff,
+        ensures
+            //#C02 C03 C12
+            (self.cipher.kind.is_2022() && self.context.stream_type is Client && r is Ok) ==> exists|nonce: Seq<u8>, pad: Seq<u8>| #[trigger] udp22_c2s_is(self.cipher.kind, self.context, verif_arg2.2.client_session_id, verif_arg2.2.packet_id, absaddr(verif_arg2.1), verif_arg2.0@, nonce, pad, final(dst)@),
+            //#C02 C03 C12 C06
+            (self.cipher.kind.is_2022() && self.context.stream_type is Server && r is Ok) ==> exists|nonce: Seq<u8>, pad: Seq<u8>| #[trigger] udp22_s2c_is(self.cipher.kind, self.context, session_key_of(self.context, verif_arg2.2), verif_arg2.2.server_session_id, verif_arg2.2.packet_id,
+                verif_arg2.2.client_session_id, absaddr(verif_arg2.1), verif_arg2.0@, nonce, pad, final(dst)@),
     { let (content, address, session) = verif_arg2;
         self.cipher.encode(&self.context, &session, &address, content, dst)
     }
@@ -699,9 +1087,14 @@ impl<const N: usize> DatagramPacketCodec<'_, N> {
 
         fn encode(&mut self, verif_arg2: DatagramPacket, dst: &mut BytesMut) -> (r: anyhow::Result<()>)
             requires old(self).codec.wf(), repr(verif_arg2.1),
+                old(self).codec.cipher.kind.is_2022() ==> old(dst)@.len() == 0 && old(self).codec.context.identity_keys@.len() <= 0x0fff_ffff,
             ensures
                 //#C12
                 final(self).session.packet_id == old(self).session.packet_id + 1,
+                //#C02 C12 C03
+                // the datagram that goes out is one SIP022 packet of this client session carrying the packet id just taken, the target and the whole payload
+                (old(self).codec.cipher.kind.is_2022() && old(self).codec.context.stream_type is Client && r is Ok) ==> exists|nonce: Seq<u8>, pad: Seq<u8>| #[trigger] udp22_c2s_is(old(self).codec.cipher.kind, old(self).codec.context,
+                    old(self).session.client_session_id, final(self).session.packet_id, absaddr(verif_arg2.1), verif_arg2.0@, nonce, pad, final(dst)@),
                 final(self).codec == old(self).codec, final(self).filter == old(self).filter,
         { let (content, addr) = verif_arg2;
             self.session.increase_packet_id();
